@@ -24,7 +24,7 @@ THEOREMS = [
 ]
 RULE = (
     "removal-biased histories: many add_data/pg_add so that data sit in zero, one or two property groups, then remove through "
-    "workspace.remove_entity or parent.remove_children (1 in 7 with the delete permission switched off first), followed by copies "
+    "workspace.remove_entity or parent.remove_children, with the delete permission switched off (and back on) by separate operations so that closes and re-opens fall between switching and removing, followed by copies "
     "and further removals; distinct by hash of the op list; non-trivial when at least one removal succeeded on an entity with "
     "children or on data that was in a property group"
 )
@@ -44,11 +44,25 @@ LEVEL_NOTE = "Trusted: Lean kernel, harness, h5py. Partial: removal of an entity
 TECHNIQUE = "Lean 4 proof (permutation of identifier lists under erase, mapEnts) + differential removal histories with reference scans"
 WANT = {"C05"}
 WEIGHTS = {"add_data": 9, "pg_add": 7, "remove_ws": 7, "remove_parent": 6, "copy": 3, "create_object": 5, "move": 1,
-           "rename": 0, "flag": 0, "set_geometry": 0, "set_values": 1}
+           "rename": 0, "flag": 0, "set_geometry": 0, "set_values": 1, "protect": 9, "reopen": 7}
+
+
+def directed(rng, ops):
+    """Half of the histories get, somewhere after their first third, the sequence: switch the delete permission of an
+    entity off -> close and re-open (the permission is now what the reader returned) -> ask the workspace or the parent
+    to remove a protected entity."""
+    if rng.random() < 0.5 or len(ops) < 3:
+        return ops
+    at = rng.randrange(len(ops) // 3, len(ops) + 1)
+    r = lambda: rng.randrange(1 << 20)  # noqa: E731
+    triple = [{"k": "protect", "a": r(), "b": 1, "c": r(), "uid": None},
+              {"k": "reopen", "a": r(), "b": r(), "c": r(), "uid": None},
+              {"k": rng.choice(["remove_ws", "remove_ws", "remove_parent"]), "a": r(), "b": r(), "c": 1 + 4 * r(), "uid": None}]
+    return ops[:at] + triple + ops[at:]
 
 
 def run(ctx: Ctx):
-    wscheck.run_props(ctx, WANT, weights=WEIGHTS)
+    wscheck.run_props(ctx, WANT, weights=WEIGHTS, shape=directed)
 
 
 def replay(ctx: Ctx, payload):
